@@ -122,6 +122,9 @@ def run(w: World, rep: Report):
     depend(rep, w, 'rules_c11', ('C11.R6',), 'C04.TD11',
            'the assembler the tree builders call leaves its inputs alone (C11.R6 re-evaluated): a token list or '
            'macro table reused between fillers/leaves assembles to the same thing every time', floor=2)
+    depend(rep, w, 'rules_c09', ('C09.R2', 'C09.R3'), 'C04.TD9',
+           'a leaf reached through MERKLEVAL -> EVAL runs under the configuration of the run (flags, thresholds), so the '
+           'verdict through the tree is the leaf script\'s own verdict (C09.R2/R3 re-evaluated)', floor=16)
     rep.explanation = (
         'Decides the binding clause of C04 in its structural form: in OP_MERKLEVAL the supplied script reaches '
         'OP_EVAL only after a verifying comparison with the tape\'s 32-byte root, with nothing in between and '
